@@ -164,8 +164,8 @@ impl Property for C12 {
     }
     fn cases(&self, tier: Tier) -> u32 {
         match tier {
-            Tier::Quick => 20_000,
-            Tier::Thorough => 300_000,
+            Tier::Quick => 600_000,
+            Tier::Thorough => 6_000_000,
         }
     }
     fn rule(&self) -> String {
